@@ -1,5 +1,6 @@
 from speclib import *
 from spec.real import *
+from fpy2.number.round import RoundingMode
 
 
 class RoundingMode_to_direction(Contract):
@@ -120,3 +121,132 @@ class RealFloat__round_params(Contract):
 
     def raises(self, max_p, min_n):
         return {'ValueError': max_p is None and min_n is None}
+
+
+class RealFloat__tiny_post(Contract):
+    target = 'fpy2.number.number.reals:RealFloat._tiny_post'
+    params = {'self': 'RealFloat', 'kept': 'RealFloat', 'emin': 'int', 'n': 'int', 'rm': 'RoundingMode'}
+    returns = 'bool'
+    properties = ['C01']
+    split = ['rm']
+    # the re-rounding argument (cutoff compare + re-split one digit lower) does not go through the
+    # solver unbounded on 1-3 paths per mode; those path-queries are checked with pow2/bit_length
+    # interpreted and every exponent / width inside [0, 20] -- a bounded stand-in, never counted as proved
+    options = {'bounded': 20, 'bounded_try_ms': 4000}
+
+    def pre(self, kept, emin, n, rm):
+        # call site (_round_at): self is tiny and inexact at n; kept is the rounded result at n
+        # with precision p = emin - n
+        R = rnd_at(self, emin - n, n, rm)
+        return {
+            'tiny': self._c > 0 and e_of(self) < emin,
+            'p_pos': emin - n >= 1,
+            'inexact': R[2],
+            'kept_sign': kept._s == self._s,
+            'kept_exp': kept._exp == R[0],
+            'kept_c': kept._c == R[1],
+        }
+
+    def post(self, kept, emin, n, rm, result):
+        return {'tiny_post': result == tiny_post_spec(self, n, emin, rm)}
+
+    def raises(self, kept, emin, n, rm):
+        return {}
+
+
+class RealFloat__round_at(Contract):
+    target = 'fpy2.number.number.reals:RealFloat._round_at'
+    params = {'self': 'RealFloat', 'p': 'int | None', 'n': 'int', 'emin': 'int | None',
+              'rm': 'RoundingMode', 'exact': 'bool'}
+    returns = 'RealFloat'
+    properties = ['C01', 'C17']
+    split = ['rm']
+
+    def pre(self, p, n, emin, rm, exact):
+        return {
+            'p_pos': p is None or p >= 1,
+            # derived from the call sites: the position is never below e - p
+            'n_ge_e_minus_p': p is None or self._c == 0 or n >= e_of(self) - p,
+            'emin_rel': emin is None or (p is not None and (self._c == 0 or e_of(self) >= emin or emin == p + n)),
+        }
+
+    def post(self, p, n, emin, rm, exact, result):
+        r = result
+        R = rnd_at(self, p, n, rm)
+        return {
+            'fresh': not same_obj(r, self),
+            'sign': r._s == self._s,
+            'wf': r._c >= 0,
+            'exp': r._exp == R[0],
+            'c': r._c == R[1],
+            'inexact': r._flags.inexact == R[2],
+            'carry': r._flags.carry == R[3],
+            'tiny_pre': r._flags.tiny_pre == tiny_pre_spec(self, emin),
+            'tiny_post': r._flags.tiny_post == tiny_post_spec(self, n, emin, rm),
+            'other_flags': not r._flags.invalid and not r._flags.divzero and not r._flags.overflow,
+            'member_n': r._exp > n or (r._exp > self._exp - 1 and r._exp == self._exp),
+            'member_p': p is None or bl(r._c) <= p,
+        }
+
+    def raises(self, p, n, emin, rm, exact):
+        return {'ValueError': exact and rnd_at(self, p, n, rm)[2]}
+
+
+class RealFloat__generate_randbits(Contract):
+    target = 'fpy2.number.number.reals:RealFloat._generate_randbits'
+    params = {'self': 'RealFloat', 'rng': 'RNG | None', 'k': 'int'}
+    returns = 'int'
+    properties = ['C17']
+    trusted = True
+    note = 'random sources return an integer in [0, 2^k); the draw is the ghost value draw(k)'
+
+    def pre(self, rng, k):
+        return {'k_nonneg': k >= 0}
+
+    def post(self, rng, k, result):
+        return {'range': 0 <= result and result < pow2(k), 'ghost': result == ghost('draw', k)}
+
+
+class RealFloat__round_at_stochastic(Contract):
+    target = 'fpy2.number.number.reals:RealFloat._round_at_stochastic'
+    params = {'self': 'RealFloat', 'p': 'int | None', 'n': 'int', 'emin': 'int | None',
+              'rm': 'RoundingMode', 'num_randbits': 'int | None', 'rng': 'RNG | None', 'exact': 'bool'}
+    returns = 'RealFloat'
+    properties = ['C17']
+    split = ['rm']
+    options = {'call_counts': {'RealFloat._generate_randbits': 1}}
+
+    def pre(self, p, n, emin, rm, num_randbits, rng, exact):
+        return {
+            'p_pos': p is None or p >= 1,
+            'n_ge_e_minus_p': p is None or self._c == 0 or n >= e_of(self) - p,
+            'emin_rel': emin is None or (p is not None and (self._c == 0 or e_of(self) >= emin or emin == p + n)),
+            'k_nonneg': num_randbits is None or num_randbits >= 0,
+            'not_exact': not exact,
+        }
+
+    def post(self, p, n, emin, rm, num_randbits, rng, exact, result):
+        r = result
+        sh = n + 1 - self._exp
+        k = (ite(sh >= 0, sh, 0)) if num_randbits is None else num_randbits
+        draw = ghost('draw', k)
+        lo = rnd_at(self, p, n, RoundingMode.RTZ)
+        hi = rnd_at(self, p, n, RoundingMode.RAZ)
+        grid = on_grid(self, n)
+        away = (False if grid else sr_away(self, n, k, rm, draw))
+        return {
+            'sign': r._s == self._s,
+            'wf': r._c >= 0,
+            # Z2: representable => unchanged (and exact)
+            'Z2_exp': implies(grid, r._exp == lo[0]),
+            'Z2_c': implies(grid, r._c == lo[1]),
+            'Z2_exact': implies(grid, not r._flags.inexact),
+            # Z3: otherwise exactly one of the two neighbours, chosen by draw + L >= 2^k
+            'Z3_exp': implies(not grid, r._exp == ite(away, hi[0], lo[0])),
+            'Z3_c': implies(not grid, r._c == ite(away, hi[1], lo[1])),
+            'Z3_inexact': implies(not grid, r._flags.inexact),
+            'member_p': p is None or bl(r._c) <= p,
+        }
+
+    def raises(self, p, n, emin, rm, num_randbits, rng, exact):
+        return {}
